@@ -378,6 +378,52 @@ def run(ctx):
     ctx.attempt(r44, ctx, rep)
     rep.rule('R4.5', 'issorted decides with the operator selected from reverse / strict on every branch')
     ctx.attempt(r45, ctx, rep)
+    rep.rule('R4.6', 'the type families the table of R4.1 is evaluated with are the ones petl.compat binds: numeric_types = (bool, int, float, Decimal), text_type = str, binary_type = bytes')
+    ctx.attempt(r46, ctx, rep)
+
+
+# ------------------------------------------------------------------------ R4.6
+FAMILIES = {'numeric_types': ('bool', 'int', 'float', 'Decimal'), 'text_type': ('str',), 'binary_type': ('bytes',)}
+
+
+def r46(ctx, rep):
+    """R4.1 interprets `isinstance(x, numeric_types)` with a frozen meaning of the three names.  That meaning is read
+    off petl.compat here (the py3 branch; the loader folds `if PY2`): a wider numeric family admits types that have no
+    native order among themselves (complex: the numeric arm raises and falls back to the type-name order, which makes the
+    order cyclic), a narrower one orders numbers by type name instead of by value."""
+    m = ctx.project.modules.get('petl.compat')
+    if m is None:
+        raise AnalysisError('anchor vanished: petl.compat')
+    found = {}
+    for n in ast.walk(m.tree):
+        if isinstance(n, ast.Assign):
+            for t in n.targets:
+                if isinstance(t, ast.Name) and t.id in FAMILIES:
+                    found.setdefault(t.id, []).append(n)
+    for name, want in FAMILIES.items():
+        if name not in found:
+            raise AnalysisError('anchor vanished: petl.compat does not bind %s' % name)
+        for n in found[name]:
+            v = n.value
+            elts = v.elts if isinstance(v, (ast.Tuple, ast.List)) else [v]
+            got = tuple(norm(e) for e in elts)
+            c = '%s = %s' % (name, norm(v)[:50])
+            if sorted(got) == sorted(want):
+                rep.held('R4.6', (m.name, name), c, 'as the table of R4.1 assumes', n)
+            elif set(got) < set(want):
+                rep.violated('R4.6', (m.name, name), c,
+                             '%s no longer contains %s: values of that type are ordered by their type name against the others '
+                             'instead of by value' % (name, sorted(set(want) - set(got))), n)
+            elif any(g.split('.')[-1] in ('Number', 'Complex', 'complex', 'object') for g in got):
+                rep.violated('R4.6', (m.name, name), c,
+                             '%s now admits every number type: complex values (and other types without a native order against '
+                             'int / float) enter the numeric arm of Comparable.__lt__, raise there and are ordered by type name '
+                             'instead -- the result is not a strict order (0 < True natively, True < 2j and 2j < 0 by name), so a '
+                             'sort no longer brings equal keys together' % name, n)
+            else:
+                rep.undecided('R4.6', (m.name, name), c,
+                              'the table of R4.1 is evaluated for %s = %s; with this binding it does not describe the code'
+                              % (name, want), n)
 
 
 # ------------------------------------------------------------------------ R4.1
